@@ -9,12 +9,13 @@
     process exit status.
   * The linter works on the parser model's instructions.
 
-  Declared approximation: Rust `str::to_lowercase` (full Unicode) is modelled by ASCII
-  lower-casing (`asciiLower`).  This is exact for texts in which every non-ASCII character is
-  a fixed point of `char::to_lowercase` (in particular for all ASCII texts); texts with
-  non-ASCII upper-case / title-case letters are outside the modelled domain.
+  Rust `str::to_lowercase() == text` (full Unicode) is modelled by `isLowerText`
+  (UnicodeLower.lean): no ASCII capital and no character of the table of code points that
+  `char::to_lowercase` changes (a model of the standard library of the installed toolchain,
+  compared with it over all code points on every check run).
 -/
 import DuckModel.Chars
+import DuckModel.UnicodeLower
 import DuckModel.Types
 import DuckModel.Parser
 import DuckModel.Generated.CliFlags
@@ -74,7 +75,7 @@ def runCli (lib : Action → Res) (args : List Str) : Nat × Str := exitStatus (
 
 /-- `is_lower_case` -/
 def isLowerCase : Option Str → Bool
-  | some text => asciiLower text == text
+  | some text => isLowerText text
   | none => true
 
 inductive LintMsg
